@@ -717,6 +717,72 @@ def gen_ipc_aligned(rng, n):
     return out
 
 
+def gen_parallel(rng, n_dep, n_other):
+    """strata "exactly parallel": the separation is exactly parallel to the direction of motion (all transverse
+    components exactly +-0.0 in 2D/3D, and genuinely one-dimensional separations), for the displaced even power
+    potential (several powers, r0, k; in front / behind x inside / outside the minimum sphere; budgets below / above
+    the inner hill k r0^p - U and generic), and for the inverse power and Lennard-Jones potentials (where the active
+    unit is behind the target these evaluate the potential at the zero vector: known finding F3d)"""
+    out = []
+
+    def par_sep(dim, d, x):
+        sep = [rng.choice([0.0, -0.0]) for _ in range(dim)]
+        sep[d] = x
+        return sep
+
+    for i in range(n_dep):
+        k = rng.choice([1.0, 0.5, 2.0, 3.3])
+        r0 = rng.choice([1.0, 0.5, 1.5, 0.1])
+        p = (2, 2, 4, 6)[(i // 12) % 4]
+        dim = (1, 2, 3)[i % 3]
+        d = rng.randrange(dim)
+        reg = (i // 3) % 4
+        if reg == 0:
+            x = -r0 * rng.uniform(1.02, 2.5)
+        elif reg == 1:
+            x = -r0 * rng.uniform(0.03, 0.97)
+        elif reg == 2:
+            x = r0 * rng.uniform(0.03, 0.97)
+        else:
+            x = r0 * rng.uniform(1.02, 2.5)
+        hill = k * r0 ** p - (k * (abs(x) - r0) ** p if reg == 2 else 0.0)
+        sub = (i // 12) % 3 if reg in (2, 3) else 2
+        if sub == 0:
+            dE = hill * rng.uniform(0.05, 0.95)
+        elif sub == 1:
+            dE = hill * (1.0 + rng.choice([rng.uniform(0.01, 1.0), rng.expovariate(0.3)]))
+        else:
+            dE = budget(rng, k * r0 ** p)
+        op = {"k": "dep_disp", "k_": f2b(k), "r0": f2b(r0), "p": p, "sep": bits(par_sep(dim, d, x)), "dir": d,
+              "speed": f2b(rng.choice(SPEEDS)), "dE": f2b(dE)}
+        out.append({"fam": "dep", "op": op, "stratum": "parallel"})
+    for i in range(n_other):
+        dim = (1, 2, 3)[i % 3]
+        d = rng.randrange(dim)
+        behind = (i // 3) % 3 == 2          # one third behind the target (F3d), two thirds in front
+        if i % 2 == 0:
+            pw = rng.choice(IP_POWERS)
+            pref = rng.choice([1.0, -1.0, 2.3])
+            c1, c2 = rng.choice(CHARGES), rng.choice(CHARGES)
+            x = rng.uniform(0.05, 2.5) * (1 if behind else -1)
+            scale = abs(pref * c1 * c2) / abs(x) ** pw
+            dE = scale * (rng.uniform(0.02, 0.98) if rng.random() < 0.5 else 1.0 + rng.expovariate(1.0))
+            op = {"k": "ip_disp", "p": f2b(pw), "p_int": 0, "pref": f2b(pref), "c1": f2b(c1), "c2": f2b(c2),
+                  "sep": bits(par_sep(dim, d, x)), "dir": d, "speed": f2b(rng.choice(SPEEDS)), "dE": f2b(dE)}
+            out.append({"fam": "ip", "op": op, "stratum": "parallel"})
+        else:
+            k = rng.choice([1.0, 0.5, 2.0])
+            sg = rng.choice([1.0, 0.8, 1.7])
+            r0 = sg * 2 ** (1 / 6)
+            inside = (i // 6) % 2 == 0
+            x = r0 * (rng.uniform(0.75, 0.97) if inside else rng.uniform(1.02, 2.5)) * (1 if behind else -1)
+            dE = 0.25 * k * (rng.uniform(0.02, 0.98) if rng.random() < 0.6 else 1.0 + rng.expovariate(1.0))
+            op = {"k": "lj_disp", "k_": f2b(k), "sigma": f2b(sg), "sep": bits(par_sep(dim, d, x)), "dir": d,
+                  "speed": f2b(rng.choice(SPEEDS)), "dE": f2b(dE)}
+            out.append({"fam": "lj", "op": op, "stratum": "parallel"})
+    return out
+
+
 ZERO_CHARGES = [(1.0, 0.0), (0.0, 1.0), (0.0, 0.0), (-1.0, 0.0), (0.0, -0.0), (-0.0, -1.3), (-0.0, -0.0), (2.0, -0.0)]
 
 
@@ -1358,7 +1424,8 @@ def run(ctx, cases_override=None):
         cases = (gen_ip(rng, int(N * 0.3)) + gen_mh(rng, int(N * 0.27), "lj") + gen_mh(rng, int(N * 0.2), "dep")
                  + gen_hs(rng, int(N * 0.08)) + gen_hs(rng, int(N * 0.04), "hd") + gen_cb(rng, int(N * 0.03))
                  + gen_ipc(rng, int(N * 0.08)) + gen_ipc_laps(rng, ctx.n(2, 12))
-                 + gen_ipc_aligned(rng, ctx.n(48, 480)) + gen_zero_charge(rng, ctx.n(72, 720)))
+                 + gen_ipc_aligned(rng, ctx.n(48, 480)) + gen_zero_charge(rng, ctx.n(72, 720))
+                 + gen_parallel(rng, ctx.n(72, 720), ctx.n(36, 360)))
         tot = gen_totality(rng, ctx.n(3000, 60000))
         prb = probes()
     allc = cases + tot + prb
@@ -1578,6 +1645,8 @@ def run(ctx, cases_override=None):
         "ipc_aligned_strata": {"exactly_aligned_oracle_only": sum(1 for c in cases if c.get("stratum") == "aligned"),
                                "one_transverse_component_zero": sum(1 for c in cases if c.get("stratum") == "onezero")},
         "zero_charge_product_cases": len(zc),
+        "exactly_parallel_cases": {f: sum(1 for c in cases if c.get("stratum") == "parallel" and c["fam"] == f)
+                                   for f in ("dep", "ip", "lj")},
         "ipc_budget_within_rounding_of_lap_multiple": sum(1 for c in cases if c.get("near_lap_multiple")),
         "ipc_lap_strata": {str(t): sum(1 for c in cases if c.get("lap_target") == t) for t in LAP_TARGETS},
         "traces_validated_against_impl": nproved,
